@@ -137,12 +137,20 @@ def rule_table_style(prog, rep, tier):
                 rep.holds("TABLE-style", "%s.%s subset of TOKENS.%s" % (nm, s, s), "doctrans/docstring_utils.py", "")
     # google/numpydoc: a parameter line the writer can produce must not look like the start of an "afterward" section
     # to the reader (`elem[0].endswith(":")` in _parse_phase_numpydoc_and_google)
-    section_suffix = None
+    section_suffix, reader_strips = None, None
     for rd in prog.modules["docstring_parsers"].functions.values():
         for c in ast.walk(rd.node):
-            if isinstance(c, ast.Call) and isinstance(c.func, ast.Attribute) and c.func.attr == "endswith" and c.args and isinstance(c.args[0], ast.Constant) \
-                    and isinstance(c.func.value, ast.Subscript) and isinstance(c.func.value.slice, ast.Constant) and c.func.value.slice.value == 0:
-                section_suffix = c.args[0].value
+            if isinstance(c, ast.Call) and isinstance(c.func, ast.Attribute) and c.func.attr == "endswith" and c.args and isinstance(c.args[0], ast.Constant):
+                recv, stripped = c.func.value, None
+                # the reader may tidy the line before it looks at its end: `elem[0].rstrip().endswith(":")`
+                while isinstance(recv, ast.Call) and isinstance(recv.func, ast.Attribute) and recv.func.attr in ("rstrip", "strip") \
+                        and (not recv.args or (isinstance(recv.args[0], ast.Constant) and isinstance(recv.args[0].value, str) and " " in recv.args[0].value)):
+                    stripped, recv = recv, recv.func.value
+                # the heading test looks at each scanned entry in turn: the receiver is the first item of a loop / comprehension variable
+                loop_vars = {t.id for l in ast.walk(rd.node) if isinstance(l, (ast.comprehension, ast.For)) for t in ast.walk(l.target) if isinstance(t, ast.Name)}
+                if isinstance(recv, ast.Subscript) and isinstance(recv.slice, ast.Constant) and recv.slice.value == 0 and isinstance(recv.value, ast.Name) \
+                        and recv.value.id in loop_vars:
+                    section_suffix, reader_strips = c.args[0].value, stripped
     if section_suffix is not None:
         # templates of the non-rest branches that carry the parameter name
         branches = [b for b in ast.walk(eps.node) if isinstance(b, ast.If)]
@@ -174,7 +182,12 @@ def rule_table_style(prog, rep, tier):
                                                   "summary" % (cst.value, src(c, 40)[-40:], section_suffix), loc(prog, c)))
         for cst in tmpl:
             n += 1
-            if cst.value.endswith(section_suffix) or cst.value.rstrip("\n").endswith(section_suffix) and False:
+            if reader_strips is not None and cst.value.rstrip(" \t").endswith(section_suffix):
+                rep.violation(Finding("TABLE-style", "docstring_parsers._parse_phase_numpydoc_and_google", "param-line-ends-with:%r:reader-strips" % section_suffix,
+                                      "the reader takes a line for the start of a trailing section when it ends with %r once its trailing blanks are removed (%s); the writer's "
+                                      "parameter-line template %r is such a line when the parameter has no prose: it and every later parameter are moved into the summary"
+                                      % (section_suffix, src(reader_strips, 40), cst.value), loc(prog, reader_strips)))
+            elif cst.value.endswith(section_suffix) or cst.value.rstrip("\n").endswith(section_suffix) and False:
                 rep.violation(Finding("TABLE-style", "docstring_utils.emit_param_str", "param-line-ends-with:%r" % section_suffix,
                                       "the parameter-line template %r ends with %r: a parameter without prose is then read by the google/numpydoc parser as the start of "
                                       "a trailing section, and it and every later parameter are moved into the summary" % (cst.value, section_suffix), loc(prog, cst)))
